@@ -382,6 +382,7 @@ def run(ctx, name, kind, **kw):
         codes = S.codes_of(util) + S.codes_of(der, {"remove_sequence", "remove_integer", "read_length", "encode_integer", "encode_sequence", "encode_length"})
         S.concurrent_purity(ctx, codes, jobs, rng, kw["runs"])
         S.reentrant_purity(ctx, codes, jobs, rng, max(12, kw["runs"] // 6))
+        S.fault_purity(ctx, codes, jobs, rng, max(12, kw["runs"] // 6))
     elif kind == "decoders":
         orders = [lib.dom_of(c).n for c in lib.ALL_CURVES]
         for _ in range(kw["count"]):
